@@ -678,3 +678,9 @@ def numeral_semis(i):
 def all_valid_names(t):
     """every Note of a string / course has a valid name"""
     return all(is_name(n.name) for n in (t if isinstance(t, list) else [t]))
+
+
+@primitive
+def list_prefix_same(a, b, n):
+    """the first n elements of a are (identical to or equal to) the first n elements of b"""
+    return len(a) >= n and len(b) >= n and all(x is y or x == y for x, y in zip(list(a)[:n], list(b)[:n]))
